@@ -57,6 +57,26 @@ CHECKS = {
             "Generated directory trees are created twice (shuffled order, other mtimes) and hashed by the real dir_hashsums; result must equal the independent walker and each other; every single edit must change the tree; escaping links must raise.",
             "symlink targets compared after resolution",
             "4 C19"),
+    "C06": ("exploration",
+            "TOC oracle: independent scan of the raw container after every container call (ok or raised) + comparison of the public TOC view before close and after reopen",
+            "State-guided random container histories (metadata of installed schemas and multi-version harness families, copy/move/delete, failing calls, kept handles, patch boundaries, reopen) on the h5py, IH5 and IH5MF drivers; every call is followed by a from-scratch recomputation of objects/links/schema/package records from the raw container.",
+            "single-handle discipline for kept MetadorMeta handles; move into own subtree excluded",
+            "4 C06"),
+    "C07": ("exploration",
+            "shadow-map monitor: per-node metadata read-back and ancestor views, refusal statuses, and query result sets vs. a brute-force evaluation over the shadow map and the plugin system",
+            "Same workload as C06 with a harness-side map of what is attached where; reads through fresh and kept handles, by name / (name, version) / class; ancestor views; queries for sampled names x version arguments x start nodes x three entry points compared with brute force.",
+            "objects are stored under the newest installed compatible version (modelled); with several suitable objects at one node any of them may serve an ancestor view (documented parent consistency)",
+            "4 C07"),
+    "C08": ("exploration",
+            "protocol enumeration with reserved paths in every path position (reject + raw tree unchanged) and a visibility monitor comparing every listing form at every group with a plain h5py tree after every operation",
+            "All path-taking methods recomputed from the live classes x 13 reserved paths x 3 start groups x 3 drivers, near-miss names as controls; plus the C06 workload with status and user-view comparison against a plain tree.",
+            "unknown methods are probed generically",
+            "4 C08"),
+    "C20": ("exploration",
+            "runtime validation of every stored object (found by the oracle's own raw scan) against the embedded JSON Schema, parent chain and provider record; fresh-container comparison after reopen",
+            "C06 workload over installed schemas and harness families; Draft-7 validation, schema/parent chain/provider equality with the plugin system after every attachment and at reopen points.",
+            "jsonschema package as validator",
+            "4 C20"),
 }
 
 NOT_YET = {
